@@ -370,3 +370,22 @@ func GenTxList(r *rand.Rand, maxChain int, allowInterleaved bool) (list []Tx, in
 	}
 	return SortByTitle(list), false
 }
+
+// RefTwoLevel is the reference two-level root of a block's (sorted) transaction list: consecutive transactions of one
+// chain form a child tree over FullHash, the block root is the reference root over the child roots in list order.
+func RefTwoLevel(txs []*types.Transaction) (titles []string, childRoots [][]byte, root []byte) {
+	var full [][]byte
+	start := 0
+	for i, tx := range txs {
+		full = append(full, tx.FullHash())
+		if i+1 == len(txs) || TitleOf(string(txs[i+1].Execer)) != TitleOf(string(tx.Execer)) {
+			titles = append(titles, TitleOf(string(tx.Execer)))
+			childRoots = append(childRoots, RefRoot(full[start:i+1]))
+			start = i + 1
+		}
+	}
+	if len(childRoots) > 0 {
+		root = RefRoot(childRoots)
+	}
+	return
+}
